@@ -141,3 +141,285 @@ EXPECTED = [
     ("records.cpp Write: seek to the end before the rows, fflush after them (Model.sf_write: f1 ++ payload, on disk when the call returns)",
      lambda k: k["write_order"]),
 ]
+
+
+# =================================================================================================
+# Translation into Gallina (round 6): the decisions of the anchored code as DEFINITIONS of C03/Gen.v.
+# The text returned by generate() is compared with the committed coq/theories/C03/Gen.v on every run
+# and, when it differs, compiled together with the tie lemmas (GenTie.v) in a scratch directory.
+# Fail-closed: anything outside the small vocabulary below raises ValueError.
+# =================================================================================================
+
+MODES = {"r+": "MRP", "w": "MW"}
+ERRS = {"ValueError": "EValue", "RuntimeError": "ERuntime", "TypeError": "EType", "IndexError": "EIndex", "KeyError": "EKey"}
+
+
+class _Expr:
+    """expressions of _ensure_compatible_dtype / _update_size / SFile.open -> Gallina"""
+
+    def __init__(self, names):
+        self.names = names          # python name -> (gallina term, type)
+
+    def typed(self, e):
+        u = ast.unparse(e)
+        if u in self.names:
+            return self.names[u]
+        if isinstance(e, ast.Constant) and isinstance(e.value, int) and not isinstance(e.value, bool):
+            return ("%d" % e.value, "Z")
+        if isinstance(e, ast.Constant) and isinstance(e.value, str) and e.value in MODES:
+            return (MODES[e.value], "mode")
+        m = re.fullmatch(r"len\((d1|d2)\)", u)
+        if m:
+            return ("dlen %s" % m.group(1), "Z")
+        m = re.fullmatch(r"(d1|d2)\[0\]", u)
+        if m:
+            return ("dname %s" % m.group(1), "bytes")
+        m = re.fullmatch(r"(d1|d2)\[1\]\[1:\]", u)
+        if m:
+            return ("dtail %s" % m.group(1), "tail")
+        m = re.fullmatch(r"(d1|d2)\[2\]", u)
+        if m:
+            return ("dshape %s" % m.group(1), "zl")
+        if isinstance(e, ast.BinOp) and isinstance(e.op, ast.Add):
+            a, ta = self.typed(e.left)
+            b, tb = self.typed(e.right)
+            if ta == tb == "Z":
+                return ("%s + %s" % (a, b), "Z")
+        raise ValueError("untranslatable expression: %s" % u)
+
+    EQ = {"Z": "(%s =? %s)", "bytes": "bytes_eqb (%s) (%s)", "tail": "tail_eqb (%s) (%s)", "zl": "zl_eqb (%s) (%s)",
+          "dtype": "dtype_eqb %s %s", "mode": "mode_eqb %s %s"}
+
+    def test(self, e):
+        """a boolean expression -> Gallina bool"""
+        if isinstance(e, ast.BoolOp):
+            op = " && " if isinstance(e.op, ast.And) else " || "
+            return "(" + op.join(self.test(v) for v in e.values) + ")"
+        if isinstance(e, ast.UnaryOp) and isinstance(e.op, ast.Not):
+            return "negb (%s)" % self.test(e.operand)
+        u = ast.unparse(e)
+        if u in self.names and self.names[u][1] == "bool":
+            return self.names[u][0]
+        if isinstance(e, ast.Compare) and len(e.ops) == 1 and isinstance(e.ops[0], (ast.Eq, ast.NotEq)):
+            a, ta = self.typed(e.left)
+            b, tb = self.typed(e.comparators[0])
+            if ta != tb or ta not in self.EQ:
+                raise ValueError("untranslatable comparison: %s" % u)
+            t = self.EQ[ta] % (a, b)
+            return t if isinstance(e.ops[0], ast.Eq) else "negb (%s)" % t
+        raise ValueError("untranslatable test: %s" % u)
+
+
+def _sets_bad(body, allow_break):
+    """the body of a test that marks the chunk incompatible: mess = ...; bad = True[; break]"""
+    seen = False
+    for st in body:
+        u = ast.unparse(st)
+        if u == "bad = True":
+            seen = True
+        elif isinstance(st, ast.Assign) and ast.unparse(st.targets[0]) == "mess":
+            continue
+        elif isinstance(st, ast.Break) and allow_break:
+            continue
+        else:
+            raise ValueError("_ensure_compatible_dtype: unexpected statement %r" % u)
+    if not seen:
+        raise ValueError("_ensure_compatible_dtype: a test does not set bad")
+    return True
+
+
+def _compat(cls):
+    ec = _method(cls, "_ensure_compatible_dtype")
+    outer = [n for n in ec.body if isinstance(n, ast.If)]
+    if len(outer) != 1 or ast.unparse(outer[0].test) != "self._dtype is not None" or outer[0].orelse:
+        raise ValueError("_ensure_compatible_dtype: `if self._dtype is not None:` not found")
+    body = outer[0].body
+    if len(body) != 3 or ast.unparse(body[0]) != "bad = False" or not isinstance(body[1], ast.If) or not isinstance(body[2], ast.If):
+        raise ValueError("_ensure_compatible_dtype: expected `bad = False; if self._delim is None: .. else: ..; if bad: raise`")
+    br, rs = body[1], body[2]
+    if ast.unparse(br.test) != "self._delim is None":
+        raise ValueError("_ensure_compatible_dtype: `if self._delim is None` not found")
+    if ast.unparse(rs.test) != "bad" or len(rs.body) != 1 or not isinstance(rs.body[0], ast.Raise) or rs.orelse:
+        raise ValueError("_ensure_compatible_dtype: `if bad: raise ...` not found")
+    exc = rs.body[0].exc
+    ename = exc.func.id if isinstance(exc, ast.Call) and isinstance(exc.func, ast.Name) else None
+    if ename not in ERRS:
+        raise ValueError("_ensure_compatible_dtype: unknown exception class")
+    # binary
+    if len(br.body) != 1 or not isinstance(br.body[0], ast.If) or br.body[0].orelse:
+        raise ValueError("_ensure_compatible_dtype: binary branch: one test expected")
+    X = _Expr({"self._dtype": ("fdt", "dtype"), "data.dtype": ("cdt", "dtype")})
+    _sets_bad(br.body[0].body, False)
+    bad_binary = X.test(br.body[0].test)
+    # text
+    tb = br.orelse
+    want = ["names = self._dtype.names", "nnames = len(names)", "input_names = data.dtype.names", "ninput = len(input_names)"]
+    if [ast.unparse(x) for x in tb[:4]] != want or len(tb) != 5 or not isinstance(tb[4], ast.If):
+        raise ValueError("_ensure_compatible_dtype: text branch: preamble changed")
+    cnt = tb[4]
+    X = _Expr({"nnames": ("nnames", "Z"), "ninput": ("ninput", "Z")})
+    _sets_bad(cnt.body, False)
+    count_test = X.test(cnt.test)
+    eb = cnt.orelse
+    if [ast.unparse(x) for x in eb[:2]] != ["descr = self._dtype.descr", "idescr = data.dtype.descr"] or len(eb) != 3 \
+            or not isinstance(eb[2], ast.For) or ast.unparse(eb[2].target) != "(d1, d2)" or ast.unparse(eb[2].iter) != "zip(descr, idescr)":
+        raise ValueError("_ensure_compatible_dtype: text branch: loop over zip(descr, idescr) not found")
+    loop = eb[2].body
+    if [ast.unparse(x) for x in loop[:2]] != ["l1 = len(d1)", "l2 = len(d2)"]:
+        raise ValueError("_ensure_compatible_dtype: loop preamble changed")
+    X = _Expr({"l1": ("l1", "Z"), "l2": ("l2", "Z")})
+    terms = []
+    for st in loop[2:]:
+        if not isinstance(st, ast.If) or st.orelse:
+            raise ValueError("_ensure_compatible_dtype: loop: unexpected statement %r" % ast.unparse(st)[:60])
+        if len(st.body) == 1 and isinstance(st.body[0], ast.If) and not st.body[0].orelse:      # if l1 == 3: if d1[2] != d2[2]: ...
+            _sets_bad(st.body[0].body, True)
+            terms.append("(if %s then %s else false)" % (X.test(st.test), X.test(st.body[0].test)))
+        else:
+            _sets_bad(st.body, True)
+            terms.append(X.test(st.test))
+    return {"bad_binary": bad_binary, "count_test": count_test, "field_terms": terms, "err": ERRS[ename]}
+
+
+def _open_mode(cls):
+    op = _method(cls, "open")
+    ifs = [n for n in op.body if isinstance(n, ast.If)]
+    fb = [n for n in ifs if "os.path.exists" in ast.unparse(n.test)]
+    if len(fb) != 1 or fb[0].orelse:
+        raise ValueError("SFile.open: the fall-back test not found")
+    t = fb[0].test
+    X = _Expr({"mode": ("m", "mode"), "os.path.exists(self._filename)": ("file_exists", "bool")})
+    cond = X.test(t)
+    assigns = [ast.unparse(x) for x in fb[0].body]
+    m = re.fullmatch(r"mode = '(r\+|w)'", assigns[0]) if assigns else None
+    if not m or assigns[1:] != ["self._mode = mode"]:
+        raise ValueError("SFile.open: fall-back body is not `mode = <const>; self._mode = mode`")
+    # the filename that is tested must be the expanded one that is opened
+    hd = [n for n in ifs if ast.unparse(n.test) in ("self._mode[0] == 'r'",)]
+    if len(hd) != 1 or not hd[0].orelse:
+        raise ValueError("SFile.open: `if self._mode[0] == 'r': .. else: ..` not found")
+    first = ast.unparse(hd[0].body[0])
+    if first != "self._hdr = self.read_header()":
+        raise ValueError("SFile.open: the reading branch does not start with read_header()")
+    return {"cond": cond, "fallback": MODES[m.group(1)]}
+
+
+def _fn_mode(tree):
+    wfn = [n for n in tree.body if isinstance(n, ast.FunctionDef) and n.name == "write"][0]
+    for n in wfn.body:
+        if isinstance(n, ast.If) and ast.unparse(n.test) == "append":
+            a = [ast.unparse(x) for x in n.body]
+            b = [ast.unparse(x) for x in n.orelse]
+            ma = re.fullmatch(r"mode = '(r\+|w)'", a[0]) if len(a) == 1 else None
+            mb = re.fullmatch(r"mode = '(r\+|w)'", b[0]) if len(b) == 1 else None
+            if ma and mb:
+                return MODES[ma.group(1)], MODES[mb.group(1)]
+    raise ValueError("sfile.write(): `if append: mode = .. else: mode = ..` not found")
+
+
+def _size_new(cls):
+    us = _method(cls, "_update_size")
+    sts = [ast.unparse(x) for x in us.body if not (isinstance(x, ast.Expr) and isinstance(x.value, ast.Constant))]
+    if not sts or sts[0] != "size_current = self._size":
+        raise ValueError("_update_size: does not start from self._size")
+    asg = [x for x in us.body if isinstance(x, ast.Assign) and ast.unparse(x.targets[0]) == "size_new"]
+    if len(asg) != 1:
+        raise ValueError("_update_size: size_new not assigned exactly once")
+    X = _Expr({"size_current": ("size_current", "Z"), "size_add": ("size_add", "Z")})
+    term, ty = X.typed(asg[0].value)
+    tail = sts[sts.index(ast.unparse(asg[0])) + 1:]
+    if tail[:2] != ["self._robj.robj.update_row_count(size_new)", "self._size = size_new"]:
+        raise ValueError("_update_size: the new size is not what is written and cached")
+    return term
+
+
+def _write_steps(cls):
+    calls = [c for c in _calls_in_order(_method(cls, "write"))
+             if c in ("self._ensure_open_for_writing", "self._ensure_compatible_dtype", "self._write_header", "self._robj.write")]
+    tag = {"self._ensure_open_for_writing": "WEnsureOpen", "self._ensure_compatible_dtype": "WCompat",
+           "self._write_header": "WHeader", "self._robj.write": "WRows"}
+    return [tag[c] for c in calls]
+
+
+def _strip(cls):
+    mh = _method(cls, "_make_header")
+    lst = None
+    for n in ast.walk(mh):
+        if isinstance(n, ast.Assign) and ast.unparse(n.targets[0]) == "reserved" and isinstance(n.value, (ast.List, ast.Tuple)):
+            lst = [ast.literal_eval(e) for e in n.value.elts]
+    src = ast.unparse(mh)
+    if lst is None or "key.lower() in reserved" not in src or "del head[key]" not in src:
+        raise ValueError("_make_header: case-insensitive strip of the reserved names not found")
+    if "head['_DELIM'] = self._delim" not in src or "head['_DTYPE'] = descr" not in src or "head['_VERSION'] = SFILE_VERSION" not in src:
+        raise ValueError("_make_header: assembly of _DELIM / _DTYPE / _VERSION not found")
+    return lst
+
+
+def _size_fmt(fmt):
+    m = re.fullmatch(r"([^%]*)%(\d+)l*d(.*)", fmt, re.S)
+    if not m:
+        raise ValueError("update_row_count: format %r is not <text>%%<width>ld<text>" % fmt)
+    return m.group(1), int(m.group(2)), m.group(3)
+
+
+def _cb(b):
+    return "[" + "; ".join("x%02x" % x for x in b) + "]" if b else "[]"
+
+
+def generate(impl_root):
+    """the text of Gen.v for the tree at impl_root"""
+    k = extract(impl_root)
+    src = open(os.path.join(impl_root, "esutil", "sfile.py")).read()
+    tree = ast.parse(src)
+    cls = [n for n in tree.body if isinstance(n, ast.ClassDef) and n.name == "SFile"][0]
+    c = _compat(cls)
+    om = _open_mode(cls)
+    ma, mb = _fn_mode(tree)
+    sz = _size_new(cls)
+    steps = _write_steps(cls)
+    strip = _strip(cls)
+    pre, width, suf = _size_fmt(k["fmt"])
+    field_bad = " || ".join(c["field_terms"]) if c["field_terms"] else "false"
+    return """(* GENERATED by harness/props/c03_translate.py from esutil/sfile.py and esutil/recfile/records.cpp - do not edit by hand.
+   The decisions of the anchored code, translated statement by statement (vocabulary: C03/GenLib.v). *)
+From Coq Require Import ZArith List Bool.
+From Coq.Strings Require Import Byte.
+From EsVerif.Common Require Import Base Bytes.
+From EsVerif.C01 Require Import Framing.
+From EsVerif.C03 Require Import Model GenLib.
+Import ListNotations.
+Open Scope Z_scope.
+
+(* sfile.write():  if append: mode = .. else: mode = .. *)
+Definition gen_fn_mode (append : bool) : mode := if append then %s else %s.
+
+(* SFile.open():  if <cond>: mode = <fall-back>; self._mode = mode *)
+Definition gen_open_mode (m : mode) (file_exists : bool) : mode := if %s then %s else m.
+
+(* SFile.open():  if self._mode[0] == "r": self._hdr = self.read_header() ... else: start from scratch *)
+Definition gen_reads_header (m : mode) : bool := mode_first_is_r m.
+
+(* SFile.write(): the calls, in order *)
+Definition gen_write_steps : list wstep := [%s].
+
+(* SFile._update_size():  size_current = self._size; size_new = <expr>; update_row_count(size_new); self._size = size_new *)
+Definition gen_size_new (size_current size_add : Z) : Z := %s.
+
+(* SFile._ensure_compatible_dtype(): binary branch, text branch (field count, then field by field), exception *)
+Definition gen_bad_binary (fdt cdt : dtype) : bool := %s.
+Definition gen_field_bad (d1 d2 : field) : bool :=
+  let l1 := dlen d1 in let l2 := dlen d2 in %s.
+Definition gen_bad_text (fdt cdt : dtype) : bool :=
+  let nnames := nfields fdt in let ninput := nfields cdt in
+  if %s then true else existsb2 gen_field_bad fdt cdt.
+Definition gen_incompatible_error : err := %s.
+
+(* SFile._make_header(): names removed from the user header (in any spelling: key.lower() in reserved) *)
+Definition gen_stripped_names : list (list byte) := [%s].
+
+(* Records::update_row_count():  fprintf(mFptr, "<prefix>%%<width>ld<suffix>", nrows) at offset 0 *)
+Definition gen_size_prefix : list byte := %s.
+Definition gen_size_width : nat := %d.
+Definition gen_size_suffix : list byte := %s.
+""" % (ma, mb, om["cond"], om["fallback"], "; ".join(steps), sz, c["bad_binary"], field_bad, c["count_test"], c["err"],
+       "; ".join(_cb(x.encode()) for x in strip), _cb(pre.encode()), width, _cb(suf.encode()))
